@@ -31,6 +31,9 @@ CHECKS = {
  "C07": ("exploration", "closure / canonical-form / snapshot / independence monitors around clone() for every root kind",
          "netlist clones: no shared object with the source, self-contained, positionally identical canonical form, same query answers, source snapshot unchanged, random edits and uniquify/flatten on one side never show in the other; sub-netlist clones checked against their documented bullet lists incl. exact reference-set bookkeeping; no mutable user-data value shared.",
          "roots are elements of well-formed netlists; known finding clone-not-registered-in-namespace fences exact-name lookups on clones (wildcard lookups compared instead)", "4 C07"),
+ "C10": ("exploration", "stateless sibling-scan model recomputed after every step vs the namespace manager: uniqueness, refusal exactness, exact-lookup vs scan",
+         "after every step of naming histories under one policy: sibling names/identifiers unique and legal, each naming refusal coincides with an independent duplicate/legality check on the current siblings, and get_*(parent, value, key) equals a linear scan over a colliding alphabet; also reader-produced netlists.",
+         "open findings fence exact lookups on clones and EDIF.identifier lookups under the DEFAULT policy; EDIF identifier grammar per EDIF 2 0 0", "4 C10"),
 }
 NA = {}
 fixes = subprocess.run(["git", "-C", "/repo", "log", "--format=%h %s"], capture_output=True, text=True).stdout.splitlines()
